@@ -197,7 +197,8 @@ def main(args):
                 "under 6 configurations; non-trivial = at least one probe; distinct by (files, root)")
     run.assumptions = ["the probe document includes main.journal and contains nothing else but the line being typed; the token being typed itself may be offered",
                        "case is flipped on ASCII letters only", "frequency order is checked for accounts (postings), payees (transactions) and tag names (uses); ties are free",
-                       "items without a textEdit are not judged on the replaced range"]
+                       "items without a textEdit are not judged on the replaced range",
+                       "with fuzzy matching on, a fragment that ends in a colon may be matched without that colon ('food:' offers expenses:food)"]
     run.finish(confirm=lambda d: confirm(run, d))
 
 
